@@ -922,7 +922,7 @@ func (self *TransparencyTextServerProtocol) FindHandler(name string) (TextServer
 		self.handlers["DECR"] = self.commandHandlerKeyWriteValueCommand
 		self.handlers["DECRBY"] = self.commandHandlerKeyWriteValueCommand
 		self.handlers["EXPIRE"] = self.commandHandlerKeyWriteValueCommand
-		self.handlers["PEXPIREAT"] = self.commandHandlerKeyWriteValueCommand
+		self.handlers["EXPIREAT"] = self.commandHandlerKeyWriteValueCommand
 		self.handlers["PEXPIRE"] = self.commandHandlerKeyWriteValueCommand
 		self.handlers["PEXPIREAT"] = self.commandHandlerKeyWriteValueCommand
 		self.handlers["PERSIST"] = self.commandHandlerKeyWriteValueCommand
